@@ -271,6 +271,31 @@ Proof.
   - vm_compute. reflexivity.
 Qed.
 
+(* The temperature domain stored on the bubble / dew point objects (equilibrium/domain.py: vle_domain) reaches the upper Psat limit
+   of EVERY chemical of the mixture (cut at 1000 K, minus 0.01 K) and the lower limit of every chemical (cut at 50 K, plus 0.01 K):
+   it ends at the LAST critical temperature, not at the first. *)
+Theorem C04_domain_covers : forall tmins tmaxs a b,
+  In a tmins -> In b tmaxs ->
+  fst (vle_domain tmins tmaxs) <= Qmax a Tmin_limit + (1#100) /\
+  Qmin b Tmax_limit - (1#100) <= snd (vle_domain tmins tmaxs).
+Proof. exact domain_covers_lemma. Qed.
+Print Assumptions C04_domain_covers.
+
+(* Hence BubblePoint.solve_Py (if T > Tmax: T = Tmax elif T < Tmin: T = Tmin) evaluates the bubble pressure -- the one
+   set_thermal_condition compares P with (C04_TP_boundary) -- at the SPECIFIED temperature whenever that temperature lies inside the
+   Psat range of at least one chemical present, e.g. above the critical temperature of the most volatile one. *)
+Theorem C04_bubble_T_not_clamped : forall tmins tmaxs a b T,
+  In a tmins -> In b tmaxs ->
+  Qmax a Tmin_limit + (1#100) <= T -> T <= Qmin b Tmax_limit - (1#100) ->
+  clampT (fst (vle_domain tmins tmaxs)) (snd (vle_domain tmins tmaxs)) T = T.
+Proof. exact bubble_T_not_clamped_lemma. Qed.
+Print Assumptions C04_bubble_T_not_clamped.
+
+Example C04_domain_nonvacuous :
+  vle_domain [135; 178; 216] [425; 507; 569] = (135 + (1#100), 569 - (1#100)) /\
+  clampT (fst (vle_domain [135; 178; 216] [425; 507; 569])) (snd (vle_domain [135; 178; 216] [425; 507; 569])) 440 = 440.
+Proof. split; vm_compute; reflexivity. Qed.
+
 (* non-vacuity *)
 Example C04_rr2_nonvacuous :
   rr2 (1#2) (1#2) 2 (1#2) = Ok ((- (2 * (1#2) + (1#2) * (1#2)) + ((1#2) + (1#2))) / rr2_den (1#2) (1#2) 2 (1#2))
